@@ -302,3 +302,44 @@ def c20_core_int(kind: int, a: int, b: int) -> str:
     if got != (a == b):
         return f"kind {kind}: objects built from {a} and {b} compare {'equal' if got else 'unequal'}"
     return ""
+
+
+def c20_twice(where: int, as_float: bool, via: int, a: int, b: int) -> str:
+    """One program calls the same gate twice with numeric arguments a and b (in the main body, inside a
+    loop, or inside a macro body).  The built statements must carry a and b respectively, and the program
+    must compare unequal to the one calling the gate with a both times exactly when a != b."""
+    a, b = concrete(a), concrete(b)      # the gate memoizer hashes the arguments, which pins them anyway
+    return concretely(_c20_twice, where, as_float, via, a, b)
+
+
+def _c20_twice(where, as_float, via, a, b):
+    va, vb = (float(a), float(b)) if as_float else (a, b)
+
+    def prog(x, y):
+        g1, g2 = ["gate", "n1", x], ["gate", "n1", y]
+        if where == 0:
+            body = [g1, g2]
+        elif where == 1:
+            body = [["loop", 2, ["sequential_block", g1, g2]]]
+        else:
+            body = [["macro", "m", "p", ["sequential_block", g1, ["gate", "g1", "p"], g2]], ["gate", "m", ("array_item", "r", 0)]]
+        return ["circuit", ["register", "r", 2]] + body
+    try:
+        c_ab = _front(prog(va, vb), via)
+        c_aa = _front(prog(va, va), via)
+    except JaqalError as ex:
+        return f"valid program rejected: {ex}"
+    root = c_ab.body if where < 2 else c_ab.macros["m"].body
+    got = [list(s.parameters.values())[0] for s in statements(root) if isinstance(s, GateStatement) and s.name == "n1"]
+    vals = []
+    for g in got:
+        try:
+            vals.append(float(g))
+        except Exception:
+            vals.append(g)
+    if vals != [float(a), float(b)]:
+        return f"'n1 {va}; n1 {vb}' built as n1 {vals[0] if vals else '?'}; n1 {vals[1] if len(vals) > 1 else '?'}"
+    eq = (c_ab == c_aa)
+    if eq != (a == b):
+        return f"program 'n1 {va}; n1 {vb}' == program 'n1 {va}; n1 {va}' is {eq}"
+    return ""
